@@ -682,6 +682,108 @@ fn int_point(c: &IntCase, obs: &mut Obs) -> PropResult {
     ensure!(x.is_within_bounds() && x.clamp() == x, "Luma<u16> clamp is not the identity");
     let x = palette::LinSrgb::<u32>::new(r as u32 * 65537, g as u32 * 65537, b as u32);
     ensure!(x.is_within_bounds() && x.clamp() == x, "Rgb<u32> clamp is not the identity");
+    // every value of an unsigned component is inside [0, MAX]: for each type that offers the traits with integer
+    // components, the predicate holds and clamp, clamp_assign and the slice forms are the identity (types with only a
+    // lower bound - Lms, the CAM16 types - go through clamp_min / clamp_min_assign instead of clamp / clamp_assign)
+    macro_rules! ident {
+        ($name:expr, $x:expr) => {{
+            let x = $x;
+            ensure!(x.is_within_bounds(), "{}: {:?} reports itself out of bounds although every integer value is in range", $name, x);
+            ensure!(x.clamp() == x, "{}: clamp changed the in-bounds colour {:?} into {:?}", $name, x, x.clamp());
+            let mut y = x;
+            y.clamp_assign();
+            ensure!(y == x, "{}: clamp_assign changed the in-bounds colour {:?} into {:?}", $name, x, y);
+            let mut sl = [x, x];
+            ensure!(sl[..].is_within_bounds(), "[{}]: slice of in-bounds colours reports itself out of bounds", $name);
+            sl[..].clamp_assign();
+            ensure!(sl[0] == x && sl[1] == x, "[{}]::clamp_assign changed the in-bounds colour {:?} into {:?}", $name, x, sl[0]);
+            let mut v = vec![x, x, x];
+            v.clamp_assign();
+            ensure!(v.iter().all(|e| *e == x), "Vec<{}>::clamp_assign changed the in-bounds colour {:?} into {:?}", $name, x, v[0]);
+        }};
+    }
+    use palette::lms::{matrix::VonKries, Lms};
+    ident!("Lms<u8>", Lms::<VonKries, u8>::new(r as u8, g as u8, b as u8));
+    ident!("Lms<u16>", Lms::<VonKries, u16>::new(r, g, b));
+    ident!("Lmsa<u16>", palette::Alpha { color: Lms::<VonKries, u16>::new(r, g, b), alpha: a });
+    ident!("Cam16Jch<u8>", Cam16Jch::<u8>::new(r as u8, g as u8, b as u8));
+    ident!("Cam16Jsh<u8>", Cam16Jsh::<u8>::new(r as u8, g as u8, b as u8));
+    ident!("Cam16Qch<u8>", Cam16Qch::<u8>::new(r as u8, g as u8, b as u8));
+    ident!("Cam16Qmh<u8>", Cam16Qmh::<u8>::new(r as u8, g as u8, b as u8));
+    ident!("Cam16Qsh<u8>", Cam16Qsh::<u8>::new(r as u8, g as u8, b as u8));
+    ident!("Cam16Qsha<u8>", palette::Alpha { color: Cam16Qsh::<u8>::new(r as u8, g as u8, b as u8), alpha: a as u8 });
+    ident!("Hsv<u8>", palette::Hsv::<palette::encoding::Srgb, u8>::new(r as u8, g as u8, b as u8));
+    ident!("Hsl<u8>", palette::Hsl::<palette::encoding::Srgb, u8>::new(r as u8, g as u8, b as u8));
+    ident!("Okhsl<u8>", palette::Okhsl::<u8>::new(r as u8, g as u8, b as u8));
+    // Hwb-likes: in bounds iff whiteness + blackness <= MAX
+    let (w, k) = (g as u8, ((255 - g as u8) as u16 * (b & 0xff) / 255) as u8);
+    ident!("Hwb<u8>", palette::Hwb::<palette::encoding::Srgb, u8>::new(r as u8, w, k));
+    ident!("Okhwb<u8>", palette::Okhwb::<u8>::new(r as u8, w, k));
+    // Hwb-likes out of bounds through the coupled constraint only (each component in range, whiteness + blackness > MAX)
+    let (w2, k2) = (g as u8, b as u8);
+    if w2 as u16 + k2 as u16 > 255 {
+        let res = pv::runner::no_panic(|| {
+            let x = palette::Hwb::<palette::encoding::Srgb, u8>::new(r as u8, w2, k2);
+            let c = x.clamp();
+            (x.is_within_bounds(), c.is_within_bounds(), c.whiteness as u16 + c.blackness as u16)
+        });
+        match res {
+            Err(p) if p.contains("overflow") => pv::fail_keyed!("C03:hwb-integer-sum-overflow", "Hwb<u8>(whiteness {}, blackness {}): is_within_bounds / clamp add the two in u8: {}", w2, k2, p.lines().last().unwrap_or("")),
+            Err(p) => pv::fail!("Hwb<u8>(whiteness {}, blackness {}) panicked: {}", w2, k2, p),
+            Ok((within, cw, sum)) => {
+                if within || !cw || sum > 255 {
+                    pv::fail_keyed!("C03:hwb-integer-sum-overflow", "Hwb<u8>(whiteness {}, blackness {}) (sum above the maximum): is_within_bounds = {}, clamped colour within bounds = {}, clamped sum {}", w2, k2, within, cw, sum);
+                }
+            }
+        }
+    }
+    Ok(())
+}
+
+// ---------------- slices of SIMD colours: the slice predicate is the lane-wise conjunction ----------------
+#[derive(Debug, Clone, Serialize, Deserialize)]
+struct SimdSliceCase {
+    /// items x lanes x components
+    items: Vec<[[f32; 3]; 4]>,
+}
+fn simd_slice_point(c: &SimdSliceCase, obs: &mut Obs) -> PropResult {
+    use palette::bool_mask::BoolMask;
+    use wide::f32x4;
+    let n = c.items.len();
+    let lane_ok = |it: &[[f32; 3]; 4], l: usize| it[l].iter().all(|x| *x >= 0.0 && *x <= 1.0);
+    let bad_lanes: Vec<usize> = (0..4).filter(|l| c.items.iter().any(|it| !lane_ok(it, *l))).collect();
+    obs.nontrivial_if(bad_lanes.len() >= 2 || (bad_lanes.len() == 1 && n > 1));
+    let first_bad: Vec<Option<usize>> = (0..4).map(|l| c.items.iter().position(|it| !lane_ok(it, l))).collect();
+    let mut distinct: Vec<usize> = first_bad.iter().flatten().cloned().collect();
+    distinct.sort();
+    distinct.dedup();
+    obs.class(if distinct.len() >= 2 { "simd slice: lanes leave the range in different items" } else if bad_lanes.is_empty() { "simd slice: all lanes in range" } else { "simd slice: one item decides" });
+    let mk = |it: &[[f32; 3]; 4], k: usize| f32x4::from([it[0][k], it[1][k], it[2][k], it[3][k]]);
+    let v: Vec<Srgb<f32x4>> = c.items.iter().map(|it| Srgb::new(mk(it, 0), mk(it, 1), mk(it, 2))).collect();
+    let m = v[..].is_within_bounds();
+    let got: [f32; 4] = m.into();
+    for l in 0..4 {
+        let want = !bad_lanes.contains(&l);
+        ensure!((got[l].to_bits() != 0) == want, "[Srgb<f32x4>]::is_within_bounds lane {} = {} but the scalar colours of that lane are {} (items {:?})", l, got[l].to_bits() != 0, if want { "all within bounds" } else { "not all within bounds" }, c.items);
+    }
+    ensure!(m.is_true() == bad_lanes.is_empty(), "mask reduction is_true disagrees with the lanes");
+    // clamp_assign on the slice: every lane of every item equals the scalar clamp
+    let mut w = v.clone();
+    w[..].clamp_assign();
+    for (i, it) in c.items.iter().enumerate() {
+        let (r, g, b): ([f32; 4], [f32; 4], [f32; 4]) = (w[i].red.into(), w[i].green.into(), w[i].blue.into());
+        for l in 0..4 {
+            let s = Srgb::<f32>::new(it[l][0], it[l][1], it[l][2]).clamp();
+            ensure!(r[l].to_bits() == s.red.to_bits() && g[l].to_bits() == s.green.to_bits() && b[l].to_bits() == s.blue.to_bits(), "[Srgb<f32x4>]::clamp_assign item {} lane {} = {:?} but the scalar clamp gives {:?}", i, l, [r[l], g[l], b[l]], s);
+        }
+    }
+    // a lower-bound-only type through the same slice impl
+    let vc: Vec<Cam16Jch<f32x4>> = c.items.iter().map(|it| Cam16Jch::new(mk(it, 0) - f32x4::splat(0.5), mk(it, 1) - f32x4::splat(0.5), mk(it, 2))).collect();
+    let got: [f32; 4] = vc[..].is_within_bounds().into();
+    for l in 0..4 {
+        let want = c.items.iter().all(|it| it[l][0] - 0.5 >= 0.0 && it[l][1] - 0.5 >= 0.0);
+        ensure!((got[l].to_bits() != 0) == want, "[Cam16Jch<f32x4>]::is_within_bounds lane {} = {} but the scalar colours of that lane say {}", l, got[l].to_bits() != 0, want);
+    }
     Ok(())
 }
 
@@ -727,5 +829,16 @@ fn main() {
     h.require_class("conversion_contract", "unclamped result out of bounds", n / 20);
     let n = h.n(100_000, 1_000_000);
     h.prop("integer_components_always_in_range", n, || proptest::array::uniform4(any::<u16>()).prop_map(|c| IntCase { c }), int_point);
+    let n = h.n(300_000, 5_000_000);
+    h.prop(
+        "slices_of_simd_colours",
+        n,
+        || {
+            let comp = || prop_oneof![6 => 0.0..=1.0f32, 1 => Just(0.0f32), 1 => Just(1.0f32), 1 => Just(-0.25f32), 1 => Just(1.5f32), 1 => -1.0..=2.0f32];
+            proptest::collection::vec(proptest::array::uniform4(proptest::array::uniform3(comp())), 1..6).prop_map(|items| SimdSliceCase { items })
+        },
+        simd_slice_point,
+    );
+    h.require_class("slices_of_simd_colours", "simd slice: lanes leave the range in different items", n / 50);
     h.finish();
 }
